@@ -244,8 +244,31 @@ def run_config(chk, facts):
     # ---- C05-d -----------------------------------------------------------------------------------
     chk.rule("C05-d", "T-AGREE: has_overflows and find_overflows test the same conditions (normalised expression trees)")
     hb, fb = facts.body(HAS), facts.body(FIND)
-    hc, fc = branch_conditions(hb), branch_conditions(fb)
-    chk.ob("C05-d", f"{len(hc)} condition(s) in has_overflows == {len(fc)} in find_overflows", hc == fc and len(hc) >= 1,
+
+    def deep_conditions(b, depth=0, seen=None):
+        """conditions of b plus those of the graph-module helpers it calls and the closures it builds (a predicate that
+        moved into a shared helper or an iterator adapter's closure still counts, for both siblings alike)"""
+        seen = seen if seen is not None else set()
+        if b is None or b.path in seen or depth > 3:
+            return []
+        seen.add(b.path)
+        out = list(branch_conditions(b))
+        for bb, t in b.calls():
+            if t.callee.startswith("write_fonts::graph::") and t.callee not in (HAS, FIND):
+                out += deep_conditions(facts.body(t.callee, _fuzzy=False), depth + 1, seen)
+        for bb, j, st in b.stmts():
+            if st[0] == "A" and st[2][0] == "agg" and st[2][1][0] == "closure":
+                out += deep_conditions(facts.body(st[2][1][1], _fuzzy=False), depth + 1, seen)
+        return sorted(out)
+    hc, fc = deep_conditions(hb), deep_conditions(fb)
+    def helpers(b):
+        return {t.callee for _, t in b.calls() if t.callee.startswith("write_fonts::graph::") and t.callee not in (HAS, FIND)}
+    shared = helpers(hb) & helpers(fb)
+    # both siblings delegating to one shared helper agree by construction, even when the predicate is a value
+    # (`cond.then_some(..)`) rather than a branch
+    chk.ob("C05-d", f"{len(hc)} condition(s) in has_overflows == {len(fc)} in find_overflows"
+                    + (f" (both delegate to {sorted(x.split('::')[-1] for x in shared)})" if shared and not hc else ""),
+           hc == fc and (len(hc) >= 1 or bool(shared)),
            key="siblings|conds", file=hb.file, line=hb.lo, fn=HAS,
            detail=f"the cheap predicate gates the success result, the detailed one drives repair; they must agree. "
                   f"has_overflows: {hc} ; find_overflows: {fc}")
